@@ -148,3 +148,49 @@ Proof.
   exists [(0, 0%nat); (0, 1%nat)], (sleep_new 10 7).
   split; [reflexivity|]. split; [repeat constructor|]. vm_compute. repeat split; reflexivity.
 Qed.
+
+(* A "partial fix" of the waker hand-over (seeded/C05/partial_waker_cache_never_refreshed): the
+   entry handle remembers the waker the entry was REGISTERED with and skips the update when the
+   polling waker equals that cache -- but the cache is never refreshed.  One hand-over A -> B
+   works (B differs from the cache).  The round trip A, B, A does not: the third poll equals the
+   stale cache, the update is skipped, the entry still wakes B; at the deadline B is woken and A,
+   which awaits the Sleep, never resumes.  The code as it is (poll_seq true) stores the waker
+   of the LAST poll, A. *)
+Definition sleep_poll_waker_cached (now : N) (w : nat) (s : sleep) (cache : option nat) (tab : wakers)
+  : wakers * option nat :=
+  if now <? deadline s then
+    match handle s with
+    | None => ((sid s, w) :: tab, Some w)
+    | Some _ => match cache with
+                | Some c => if Nat.eqb c w then (tab, cache) else ((sid s, w) :: tab, cache)
+                | None => ((sid s, w) :: tab, cache)
+                end
+    end
+  else (tab, cache).
+
+Fixpoint poll_seq_cached (polls : list (N * nat)) (s : sleep) (dr : driver) (cache : option nat) (tab : wakers)
+  : sleep * driver * wakers :=
+  match polls with
+  | [] => (s, dr, tab)
+  | (t, w) :: r =>
+    let '(tab', cache') := sleep_poll_waker_cached t w s cache tab in
+    let '(_, s', dr') := sleep_poll t s dr in
+    poll_seq_cached r s' dr' cache' tab'
+  end.
+
+Lemma C05_waker_cache_never_refreshed_refuted :
+  exists polls s, handle s = None /\ Forall (fun p => fst p < deadline s) polls /\
+    (* round trip A = 0, B = 1, A: the code wakes A, the cached rule wakes B *)
+    waker_of (snd (poll_seq true polls s new_driver [])) (sid s) = Some 0%nat /\
+    waker_of (snd (poll_seq_cached polls s new_driver None [])) (sid s) = Some 1%nat /\
+    (* ... while the single hand-over A -> B works under that rule, and so does A -> B -> C *)
+    waker_of (snd (poll_seq_cached [(0, 0%nat); (0, 1%nat)] s new_driver None [])) (sid s) = Some 1%nat /\
+    waker_of (snd (poll_seq_cached [(0, 0%nat); (0, 1%nat); (0, 2%nat)] s new_driver None [])) (sid s) = Some 2%nat /\
+    (* ... and A -> B -> C -> A, A -> B -> A -> B end with the wrong waker as well *)
+    waker_of (snd (poll_seq_cached [(0, 0%nat); (0, 1%nat); (0, 2%nat); (0, 0%nat)] s new_driver None [])) (sid s) = Some 2%nat /\
+    waker_of (snd (poll_seq true [(0, 0%nat); (0, 1%nat); (0, 0%nat); (0, 1%nat)] s new_driver [])) (sid s) = Some 1%nat.
+Proof.
+  exists [(0, 0%nat); (1, 1%nat); (2, 0%nat)], (sleep_new 10 7).
+  split; [reflexivity|]. split; [repeat constructor|]. vm_compute. repeat split; reflexivity.
+Qed.
+
